@@ -299,7 +299,7 @@ def _execute(sc, sim, out):
                 counts_on_original.append(on_orig)
             if sel[0] == 'N' and sel[1] > k:
                 out.probe('n_beyond_total')
-            r = pipe.call(info.keep, sel)
+            r = pipe.call(info.keep, pipe.sel_arg(sel))
             if r[0] != 'ok':
                 out.violate('selection', 'keep%r raised %s: %s' % (sel, pipe.exc_name(r), r[1]), key='keep/%s' % pipe.exc_name(r))
                 break
@@ -381,7 +381,7 @@ def _execute(sc, sim, out):
             from sedfitter import write_parameters
             r = pipe.call(pipe.write_fit_file, path, [info])
             if r[0] == 'ok':
-                r = pipe.call(write_parameters, path, path + '.txt', select_format=sel)
+                r = pipe.call(write_parameters, path, path + '.txt', select_format=pipe.sel_arg(sel))
             if r[0] != 'ok':
                 out.violate('selection', 'consumer hop failed: %s %s' % (pipe.exc_name(r), r[1]), key='consumerhop/%s' % pipe.exc_name(r))
                 break
@@ -451,7 +451,7 @@ def _plot_consumer(sc, st, sel, info, R, k, nd, path, out, ft):
     if st['channel'] == 'list':
         for a_, x in zip(arg, infos):
             a_.meta = x.meta
-    r = pipe.call(plot, arg, select_format=sel, plot_max=st['plot_max'], sed_type='largest', memmap=False)
+    r = pipe.call(plot, arg, select_format=pipe.sel_arg(sel), plot_max=st['plot_max'], sed_type='largest', memmap=False)
     out.probe('hop_plot_several_sources')
     if r[0] != 'ok':
         return 'plot%r of %d sources raised %s: %s' % (sel, len(infos), pipe.exc_name(r), r[1])
